@@ -16,14 +16,14 @@ Qed.
 (* what a successful call leaves: the umask as before, a file holding exactly one entry per selected
    frame, keyed by the frame's distance from the failing frame (distinct keys), each entry with the
    frame's own metadata and its filtered locals; a refused call leaves everything untouched *)
-Theorem saveframe_end_to_end rx valid pk script fa va ea cur e open_ok dump_ok (st : fs saved) res st' :
-  saveframe rx valid pk script fa va ea cur e open_ok dump_ok st = (res, st') ->
+Theorem saveframe_end_to_end rx valid pk script esc fa va ea cur e open_ok dump_ok (st : fs saved) res st' :
+  saveframe rx valid pk script esc fa va ea cur e open_ok dump_ok st = (res, st') ->
   fs_umask st' = fs_umask st /\
   match res with
   | Err _ => st' = st
   | Ok (o, d) =>
       exists sel inc exc entries,
-        validate_arguments valid script (default_frames fa cur) va ea = Ok (sel, inc, exc) /\
+        validate_arguments valid script (default_frames esc fa cur) va ea = Ok (sel, inc, exc) /\
         get_frames_to_save rx sel (all_frames_from_exception e) = Ok entries /\
         d = map (frame_metadata pk inc exc) entries /\
         NoDup (map s_index d) /\
@@ -36,7 +36,7 @@ Theorem saveframe_end_to_end rx valid pk script fa va ea cur e open_ok dump_ok (
   end.
 Proof.
   unfold saveframe. unfold saved in *.
-  destruct (validate_arguments valid script (default_frames fa cur) va ea) as [[[sel inc] exc] | er] eqn:Ev; cbn [bind].
+  destruct (validate_arguments valid script (default_frames esc fa cur) va ea) as [[[sel inc] exc] | er] eqn:Ev; cbn [bind].
   2:{ intros H. inversion H. now split. }
   unfold frames_and_info.
   destruct (get_frames_to_save rx sel (all_frames_from_exception e)) as [entries | er] eqn:Es; cbn [bind].
